@@ -18,7 +18,11 @@ EXHAUSTIVE = {
              '(None + all ordered base lists) for tables with <=2 rows or 1 column, binarize(), both mining paths',
     'thorough': 'quick scope with the full interval domain for 3x2 tables, IntervalNumpyPS columns, plus 4-row tables '
                 'with 1 column (SetPS over {a,b,c}) and 4x2 tables over a reduced cell domain'}
-EXPLANATION = ('closure/extension outputs are pinned uniquely (Lean: model = conjunctive filter, closure laws proved), so '
+EXPLANATION = ('Lean proves, for every many-valued context with BottomOK, that all three paths of close_by_one (object-wise on '
+               'descriptions, binarising, binarising-transposed) return exactly the closed object sets, each once, with '
+               'intention_i(extent), and agree (mv_lattice_exact, paths_agree; fuel = closed form closeByOneFuel, which is '
+               'the fuel the driver runs the model with).  '
+               'closure/extension outputs are pinned uniquely (Lean: model = conjunctive filter, closure laws proved), so '
                'implementation != spec is a property failure; lattices are compared as sets of (extent, description) '
                'against the brute-force closed sets (Lean spec) and the cover relation of inclusion; the binarised table '
                'is judged by brute-force concept enumeration in Lean (Spec.allConcepts).  Failures on tables with '
@@ -27,7 +31,9 @@ ASSUMPTIONS = ['every many-valued context has >= 1 object and >= 1 pattern struc
                'interval ends are integral floats (exactly representable); SetPS symbols are single letters',
                'object index arguments are duplicate-free lists of valid indexes',
                'descriptions passed to extension_i have the shape of their column (dict keys are valid column indexes)']
-TRUSTED = ['IntervalNumpyPS columns are run through the IntervalPS model (agreement of the two engines is property C13)',
+TRUSTED = ['the worklist loops of close_by_one_objectwise(_fbarray) are the machine cboLoop of Model/CbO (property C02) run with '
+           'the many-valued intention_i/extension_i resp. on the binarised table',
+           'IntervalNumpyPS columns are run through the IntervalPS model (agreement of the two engines is property C13)',
            'caspailleur order routines behind order_extents_comparison are modelled by their contract '
            '(cover relation of inclusion; KeyError on repeated extents)',
            'ConceptLattice.sort_concepts order is not compared (not part of the property)']
@@ -539,6 +545,13 @@ def judge(c, io, rep):
             results.append(_canon_concepts(p['ok']))
         if not prop_fail and len(results) == 2 and results[0] != results[1]:
             prop_fail = f'the object-wise and the binarising path differ: {results[0]} vs {results[1]}'
+        # the model must obey its theorem: under BottomOK every path returns exactly the closed sets
+        # (Fca.C14.mv_lattice_exact, with the fuel the driver uses = MVCtx.closeByOneFuel)
+        if r['bottomOK']:
+            for q in r['paths']:
+                if 'ok' not in q['res'] or sorted([x['e'] for x in q['res']['ok']], key=_key) != closed:
+                    return dict(ok=False, kind='harness',
+                                detail=f'model contradicts mv_lattice_exact on a BottomOK table: {q["path"]} -> {q["res"]}')
         # correspondence with the model
         corr = None
         for p, q in zip(io['paths'], r['paths']):
